@@ -11,7 +11,7 @@ SEARCH_SYMBOLS = ["*", ",", ">", "<", "**"]
 def parse_query(q: str) -> List[Tuple[str, str]]:
     """'a=b&c=d' -> [('a','b'),('c','d')].  Only for queries whose keys/values are free of URL metacharacters."""
     out = []
-    for pair in q.split("&"):
+    for pair in q.replace("?", "&").split("&"):      # "all ? can be used as &"; leading / trailing separators are ignored
         if "=" not in pair:
             continue
         k, v = pair.split("=", 1)
